@@ -41,6 +41,10 @@ BEHAVIOURS = ["falsy", "truthy", "raise", "raise-if-exc", "reraise", "raise-base
               "raise-stop", "raise-stop-async"]
 
 
+# keyword arguments of callbacks under names the stack's own methods use for their parameters
+CB_KW = {"callback": "cb", "self": "me", "exit": "x", "args": (1,), "kwargs": {"k": 1}}
+
+
 class New(Exception):
     pass
 
@@ -205,9 +209,9 @@ def entry_objects(i, kind, behaviour, log, block_ref):
 
         async def __aexit__(self, et, ev, tb):
             if self.is_async:
-                await self.fn("arg", i, kw=i)
+                await self.fn("arg", i, kw=i, **CB_KW)
             else:
-                self.fn("arg", i, kw=i)
+                self.fn("arg", i, kw=i, **CB_KW)
             return False
 
     if kind == "acm":
@@ -260,7 +264,8 @@ async def run_stack(case, log):
                     if returned is not thing:
                         log.append(("push-did-not-return-its-argument",))
                 else:
-                    returned = stack.callback(thing, "arg", things.index((how, thing)), kw=things.index((how, thing)))
+                    returned = stack.callback(thing, "arg", things.index((how, thing)), kw=things.index((how, thing)),
+                                              **CB_KW)
                     if returned is not thing:
                         log.append(("callback-did-not-return-its-argument",))
             log.append(("block",))
